@@ -98,3 +98,14 @@ Example C01_example_nullable :
   validate n (JArr []) = Some 204 /\ shape_ok n (JArr []) = false /\
   validate n (JObj [([x61], JObj [])]) = Some 204 /\ shape_ok n (JObj [([x61], JObj [])]) = false.
 Proof. vm_compute. repeat split; reflexivity. Qed.
+
+(* the event-level model of the validator (Schema/Machine.v: the lexical events of the document
+   fed to the tree of leaf validators, Tree.FeedLeaves) returns on every rule-free schema exactly
+   what the recursive model [validate] returns - the verdict and the error code.
+   Proof in Schema/MachineProofs.v. *)
+From JS Require Schema.Machine Schema.MachineSpec Schema.MachineProofs.
+
+Theorem C01_event_machine_equals_model : forall n v,
+  Machine.machine_validate [] (Machine.of_snode n) v = validate n v.
+Proof. exact MachineProofs.machine_eq_validate. Qed.
+Print Assumptions C01_event_machine_equals_model.
